@@ -1,6 +1,7 @@
 import HcModel.Pairings
 import HcModel.Http
 import HcModel.Generated.PanicSites
+import HcModel.Generated.CtxLock
 import HcModel.PanicSitesExpected
 import HcProofs.Lemmas.PairSetup
 import HcProofs.Lemmas.PairVerify
@@ -141,5 +142,33 @@ theorem fresh_connection_handshakes_at_once :
     a new or moved site makes this obligation fail. -/
 theorem panic_sites_accounted : Hc.Generated.panicSites.all (fun s => Hc.PanicSite.expected.contains s) = true := by
   decide
+
+-- the map shared by all connections (regenerated) ------------------------------------------------------------------
+
+/-- Two accesses to the context's map by different goroutines (connections are accepted, served and closed on goroutines
+    of their own, so any two methods — also twice the same — can run at once) can overlap unless a lock keeps them
+    apart: an exclusive lock keeps its holder apart from every other lock holder, two shared locks overlap, and a method
+    that takes no lock overlaps with everything. -/
+def canOverlap (l1 l2 : String) : Bool := l1 == "none" || l2 == "none" || (l1 == "RLock" && l2 == "RLock")
+
+/-- Go's runtime ends the process ("concurrent map read and map write", "concurrent map writes" — not a panic a handler
+    could recover from) when a map write overlaps with any other access. -/
+def fatalPair (a b : String × String × String × Bool) : Bool :=
+  a.2.1 != "none" && b.2.1 != "none" && (a.2.1 == "write" || b.2.1 == "write") && canOverlap a.2.2.1 b.2.2.1
+
+/-- Every method of hap's context in the source now (Generated/CtxLock.lean) that touches the map holds the lock while
+    it does (taken before the first access, released by `defer`), and no two of them — for whatever churn of connections
+    a peer produces — can be in a fatal overlap. -/
+theorem context_map_never_accessed_concurrently :
+    (Hc.Generated.ctxLock.all fun a => Hc.Generated.ctxLock.all fun b => !fatalPair a b) = true ∧
+    (Hc.Generated.ctxLock.all fun a => a.2.1 == "none" || a.2.2.2) = true ∧
+    (Hc.Generated.ctxLock.any fun a => a.2.1 == "write") = true ∧
+    (Hc.Generated.ctxLock.any fun a => a.2.1 == "read") = true := by decide
+
+/-- the rule is not empty: a map written under the shared lock of a read-write mutex (which keeps readers apart from
+    exclusive holders only) is a fatal overlap with a reader, and with itself -/
+theorem context_shared_lock_write_refuted :
+    fatalPair ("Delete", "write", "RLock", true) ("Get", "read", "RLock", true) = true ∧
+    fatalPair ("Delete", "write", "RLock", true) ("Delete", "write", "RLock", true) = true := by decide
 
 end Hc.Props.C13
